@@ -33,6 +33,7 @@ const c09Rule = "ComparePaths: (i) every ordered pair of the 1057 paths over nam
 	"function case whose path has >=2 elems and whose second argument is not simply a literal prefix of it."
 
 const f13ID = "F13-comparepaths-early-partial"
+const f98ID = "F98-comparepaths-empty-key-value"
 
 // ---------------------------------------------------------------------------------------------
 // relations
@@ -224,6 +225,17 @@ func c09Witnesses(rec *ev.Rec) {
 		}
 		return false, ""
 	})
+	// F98: a key whose value is the empty string is taken for an absent key when the other path does not
+	// name that key (map lookup without the ok flag)
+	rec.Witness(f98ID, func() (bool, string) {
+		a := mPath{Elems: []mElem{{Name: "a", Keys: []mKey{{"m", ""}}}}}
+		b := mPath{Elems: []mElem{{Name: "a"}}}
+		got := util.ComparePaths(a.proto(), b.proto())
+		if got != util.Subset {
+			return true, fmt.Sprintf("ComparePaths(%s, %s) = %s, want Subset (the first path names one entry, the second all)", a, b, ygotRelName(got))
+		}
+		return false, ""
+	})
 }
 
 // compare8 evaluates ComparePaths(a,b) 8 times (Go randomises every map iteration, so
@@ -403,7 +415,7 @@ func covers(p mPath, c []concreteElem) bool {
 var (
 	c09Names  = []string{"a", "b", "c"}
 	c09Keys   = []string{"k", "l", "m"}
-	c09Values = []string{"1", "2", "3", "4"}
+	c09Values = []string{"1", "2", "3", "4", ""}
 )
 
 // genKeyState draws absent / * / a concrete value.
